@@ -108,10 +108,18 @@ fn bar_chart(mut args: Args) -> Result<Plot, Box<RuntimeErrorKind>> {
 }
 
 #[cfg(feature = "plotting")]
-fn show_plot(plot: Plot) -> CompactString {
-    plot.show();
+fn show_plot(plot: Plot) -> Result<CompactString, Box<RuntimeErrorKind>> {
+    // plotly panics if the plot can not be opened, e.g. if there is no default
+    // application for HTML files (containers, CI jobs, ssh sessions)
+    std::panic::catch_unwind(std::panic::AssertUnwindSafe(|| plot.show())).map_err(|_| {
+        Box::new(RuntimeErrorKind::UserError(
+            "Could not open the plot in the browser".into(),
+        ))
+    })?;
 
-    CompactString::const_new("Plot will be opened in the browser")
+    Ok(CompactString::const_new(
+        "Plot will be opened in the browser",
+    ))
 }
 
 #[cfg(feature = "plotting")]
@@ -141,7 +149,7 @@ pub fn show(
         ))));
     };
 
-    return_string!(owned = show_plot(plot))
+    return_string!(owned = show_plot(plot)?)
 }
 
 #[cfg(not(feature = "plotting"))]
